@@ -193,8 +193,37 @@ def exec_full(case):
     for rs_, tr in itertools.product([False, True], repeat=2):
         o = lib_call(s.posterior, resample=rs_, trim_importance_weights=tr, return_blobs=True, return_logw=True, what="posterior")
         check_records(t, None, o[0], o[2], o[3] if blobs_on else None, f"posterior(resample={rs_},trim={tr}): returned samples", llf=llf)
+    second = case["pool_seed"] % 3 == 0
+    if second:
+        # second life of the same object: the checkpoint of a SIBLING run (same configuration, other seed: same extent at the same
+        # index) replaces its history; what it returns and what it does next must still be whole records
+        import glob
+        import os
+
+        from vlib.runs import scratch_dir
+
+        with scratch_dir() as od:
+            np.random.seed((case["rs_value"] + 1) % 2**31)
+            b, _ = cfggen.build(dict(case, rs_value=case["rs_value"] + 1), output_dir=od)
+            with quiet():
+                lib_call(b.run, n_total=3 * case["n_particles"], progress=False, save_every=1, what="Sampler.run(save_every=1) [sibling]")
+            files = sorted(glob.glob(os.path.join(od, "*.state")))
+            if files:
+                f = files[(case["pool_seed"] // 3) % len(files)]
+                with quiet():
+                    lib_call(s.load_state, f, what="Sampler.load_state [sibling checkpoint into a used sampler]")
+                for rs_, tr in itertools.product([False, True], repeat=2):
+                    o = lib_call(s.posterior, resample=rs_, trim_importance_weights=tr, return_blobs=True, return_logw=True, what="posterior")
+                    check_records(t, None, o[0], o[2], o[3] if blobs_on else None,
+                                  f"after load_state of a sibling checkpoint into a used sampler: posterior(resample={rs_},trim={tr})", llf=llf)
+                with patched_parallel_mcmc(obs), quiet():
+                    lib_call(s.sample, what="Sampler.sample [after load_state]")
+                for i in range(st.get_history_length()):
+                    check_records(t, st.get_history("u", index=i), st.get_history("x", index=i), st.get_history("logl", index=i),
+                                  st.get_history("blobs", index=i) if blobs_on else None,
+                                  f"after load_state of a sibling checkpoint and one sample(): history batch {i}", llf=llf)
     return {"nontrivial": stats["mixed"] > 0,
-            "classes": ["mode:" + case["mode"], "pool:%s" % case["pool"], "extra:" + case["ll_extra"], "metric:" + case["metric"],
+            "classes": (["second-life"] if second else []) + ["mode:" + case["mode"], "pool:%s" % case["pool"], "extra:" + case["ll_extra"], "metric:" + case["metric"],
                         "boundary:" + ("both" if case["periodic"] and case["reflective"] else "periodic" if case["periodic"] else "reflective" if case["reflective"] else "none")],
             "sample": cfggen.summary(case)}
 
